@@ -610,6 +610,7 @@ type Specs struct {
 	GhostDefs  map[string][]*GhostDef
 	Wires      []*WireDecl
 	ChanInvs   map[string][]*Clause // "pkg.T" -> invariant over e (every value sent on a chan T satisfies it)
+	FuncVars   map[string]string // "pkg.name" -> funcspec: the package-level function variable holds a function satisfying it
 	FuncFields map[string]string // "pkg.T.f" -> funcspec name: the field holds a function satisfying that funcspec
 	Volatile   map[string]bool // "pkg.T.f": fields accessed atomically / concurrently: exempt from frames, havoc'd by every effectful call
 	ObjInvs    map[string][]*Clause
@@ -619,11 +620,11 @@ type Specs struct {
 
 func newSpecs() *Specs {
 	return &Specs{Funcs: map[string]*FuncContract{}, Ifaces: map[string]*FuncContract{}, FuncSpecs: map[string]*FuncContract{},
-		Ghosts: map[string]*GhostDecl{}, SpecFns: map[string]*SpecFn{}, GhostDefs: map[string][]*GhostDef{}, ChanInvs: map[string][]*Clause{}, FuncFields: map[string]string{}, Immutable: map[string]bool{}, Volatile: map[string]bool{}, ObjInvs: map[string][]*Clause{}}
+		Ghosts: map[string]*GhostDecl{}, SpecFns: map[string]*SpecFn{}, GhostDefs: map[string][]*GhostDef{}, ChanInvs: map[string][]*Clause{}, FuncVars: map[string]string{}, FuncFields: map[string]string{}, Immutable: map[string]bool{}, Volatile: map[string]bool{}, ObjInvs: map[string][]*Clause{}}
 }
 
 var itemKeywords = map[string]bool{"func": true, "iface": true, "impl": true, "monitor": true, "funcspec": true, "ghost": true,
-	"spec": true, "axiom": true, "lemma": true, "immutable": true, "extern": true, "volatile": true, "funcfield": true, "chaninv": true, "wire": true}
+	"spec": true, "axiom": true, "lemma": true, "immutable": true, "extern": true, "volatile": true, "funcfield": true, "funcvar": true, "chaninv": true, "wire": true}
 var clauseKeywords = map[string]bool{"facet": true, "requires": true, "ensures": true, "modifies": true, "panics-when": true, "cbassume": true,
 	"inline": true, "trusted": true, "loop": true, "param": true, "arith": true, "invariant": true, "implements": true,
 	"guards": true, "havocs": true, "pure": true, "names": true, "results": true, "opt": true, "safety": true, "attr": true, "cond": true, "monotone": true}
@@ -847,6 +848,13 @@ func (sp *Specs) parseFile(path, pkgName string, lines []string) error {
 			}
 			k := pkgName + "." + strings.TrimPrefix(r[1:i], "*")
 			sp.ChanInvs[k] = append(sp.ChanInvs[k], &Clause{Kind: "invariant", Props: props, Label: label, Text: body, E: ex})
+		case "funcvar":
+			// funcvar name funcspecName
+			fs := strings.Fields(r)
+			if len(fs) != 2 {
+				return fail(ln, fmt.Errorf("want: funcvar name funcspec"))
+			}
+			sp.FuncVars[pkgName+"."+fs[0]] = fs[1]
 		case "funcfield":
 			// funcfield (T).f funcspecName
 			fs := strings.Fields(r)
@@ -1149,6 +1157,9 @@ func readContractFile(path string) (pkgName string, lines []string, err error) {
 			}
 			if strings.HasPrefix(t, "//@") {
 				l := strings.TrimPrefix(t, "//@")
+				if strings.TrimSpace(l) == "debugnames" {
+					continue // handled by the loader (see loadModule)
+				}
 				if f := strings.Fields(l); len(f) == 2 && f[0] == "pkgalias" {
 					// the package is known to the verifier under this name (see pkgAliases)
 					pkgName = f[1]
